@@ -15,8 +15,8 @@ VN_MAX = tier(2, 3)
 INJ_MAX = tier(3, 4)
 
 BS = chr(92)
-ALPH = BS + ";:,\"%2C=\r\n aB"          # \ ; : , " % 2 C = CR LF SP a B
-INJ = "\";:=,a" + BS                    # focused alphabet for structure injection
+ALPH = BS + ";:,\"%2C=\r\n aB\u2028\x85"          # \ ; : , " % 2 C = CR LF SP a B LS NEL
+INJ = "\";:=,a" + BS + "\u2028"         # focused alphabet for structure injection (incl. a Unicode line separator)
 KINDS = ["text", "uri", "cal-address", "inline"]
 
 
